@@ -22,14 +22,6 @@ Lemma sv_set_cver s v j : sv (set_cver s v) j = sv s j.
 Proof. reflexivity. Qed.
 Lemma sv_set_regions s r j : sv (set_regions s r) j = sv s j.
 Proof. reflexivity. Qed.
-Lemma sv_set_rolling s l j : sv (set_rolling s l) j = sv s j.
-Proof. reflexivity. Qed.
-Lemma sv_set_crashed s j : sv (set_crashed s) j = sv s j.
-Proof. reflexivity. Qed.
-Lemma sv_roll_add s id j : sv (roll_add s id) j = sv s j.
-Proof. unfold roll_add. destruct (existsb _ _); reflexivity. Qed.
-Lemma sv_roll_del s id j : sv (roll_del s id) j = sv s j.
-Proof. reflexivity. Qed.
 Lemma sv_version_change s j : sv (version_change s) j = sv s j.
 Proof. unfold version_change. destruct (min_ver (served s)); [destruct (ver_lt _ _)|]; reflexivity. Qed.
 
@@ -47,7 +39,7 @@ Lemma put_locked_sv s id x f idx s' ok :
 Proof.
   unfold put_locked. intros H j.
   destruct (wr_cases f id idx) as [E|[E|E]]; rewrite E in H; cbn in H; inversion H; subst; clear H; cbn [andb].
-  - rewrite sv_roll_add, sv_set_served. reflexivity.
+  - rewrite sv_set_served. reflexivity.
   - reflexivity.
   - reflexivity.
 Qed.
@@ -98,15 +90,13 @@ Proof.
   destruct (negb (compatible (cver s) v)); [inv H; constructor|].
   destruct (dup_addr s (p_id p) (p_addr p)) eqn:Edup; [inv H; constructor|].
   destruct (sv s (p_id p)) as [old|] eqn:Eold.
-  - destruct (if force then (p_labels p, s_cells old) else merge_labels (s_cells old) (s_cap old) (p_labels p)) as [ls cells'].
-    match type of H with context [put_locked ?a ?b ?c ?d ?e] => destruct (put_locked a b c d e) as [s1 ok] eqn:Epl end.
-    inv H. rewrite (put_locked_sv _ _ _ _ _ _ _ Epl j), sv_set_served.
+  - match type of H with context [put_locked ?a ?b ?c ?d ?e] => destruct (put_locked a b c d e) as [s1 ok] eqn:Epl end.
+    inv H. rewrite (put_locked_sv _ _ _ _ _ _ _ Epl j).
     zeq (p_id p) j; [|rewrite andb_false_r; constructor].
-    rewrite Eold, andb_true_r. destruct ok.
-    + destruct Ho as [Ho|[x [Hx Ha]]].
-      * apply ch_readdr; auto.
-      * inv Hx. apply ch_keep; auto.
-    + apply ch_keep; reflexivity.
+    rewrite Eold, andb_true_r. destruct ok; [|constructor].
+    destruct Ho as [Ho|[x [Hx Ha]]].
+    + apply ch_readdr; auto.
+    + inv Hx. apply ch_keep; auto.
   - match type of H with context [put_locked ?a ?b ?c ?d ?e] => destruct (put_locked a b c d e) as [s1 ok] eqn:Epl end.
     inv H. rewrite (put_locked_sv _ _ _ _ _ _ _ Epl j).
     zeq (p_id p) j; [|rewrite andb_false_r; constructor].
@@ -168,9 +158,7 @@ Proof.
   destruct (is_tomb x) eqn:Et; [inv H; auto|].
   destruct (sstate_eqb (s_state x) Up) eqn:Eu; [inv H; auto|].
   destruct (put_locked s id (with_state x Tombstone (s_pd x)) f 0) as [s1 ok] eqn:Epl. inv H.
-  assert (Er : forall k, sv (if ok then roll_del (version_change s1) id else version_change s1) k = sv s1 k)
-    by (intros k; destruct ok; rewrite ?sv_roll_del, sv_version_change; reflexivity).
-  rewrite !Er, !(put_locked_sv _ _ _ _ _ _ _ Epl).
+  rewrite !sv_version_change, !(put_locked_sv _ _ _ _ _ _ _ Epl).
   zeq id j; [|rewrite andb_false_r; auto].
   rewrite ?Z.eqb_refl, ?andb_true_r. destruct ok; [|auto].
   right. split; [reflexivity|]. exists x. split; [reflexivity|]. split; [|reflexivity].
@@ -193,11 +181,9 @@ Qed.
 Lemma tree_count_regions s s' id : regions s' = regions s -> tree_count s' id = tree_count s id.
 Proof. unfold tree_count; intros ->; reflexivity. Qed.
 
-Lemma regions_roll_add s id : regions (roll_add s id) = regions s.
-Proof. unfold roll_add. destruct (existsb _ _); reflexivity. Qed.
 Lemma regions_put_locked s id x f idx s' ok : put_locked s id x f idx = (s', ok) -> regions s' = regions s.
 Proof.
-  unfold put_locked. destruct (wr f id idx) as [[|] [|]]; intros H; inv H; rewrite ?regions_roll_add; reflexivity.
+  unfold put_locked. destruct (wr f id idx) as [[|] [|]]; intros H; inv H; reflexivity.
 Qed.
 Lemma regions_version_change s : regions (version_change s) = regions s.
 Proof. unfold version_change. destruct (min_ver (served s)); [destruct (ver_lt _ _)|]; reflexivity. Qed.
@@ -206,9 +192,7 @@ Proof.
   unfold do_bury. destruct (sv s id) as [x|]; intros H; [|inv H; reflexivity].
   destruct (is_tomb x); [inv H; reflexivity|]. destruct (sstate_eqb (s_state x) Up); [inv H; reflexivity|].
   destruct (put_locked s id (with_state x Tombstone (s_pd x)) f 0) as [s1 ok] eqn:Epl. inv H.
-  assert (regions (if ok then roll_del (version_change s1) id else version_change s1) = regions s1) as ->
-    by (destruct ok; cbn; rewrite regions_version_change; reflexivity).
-  eapply regions_put_locked; eauto.
+  rewrite regions_version_change. eapply regions_put_locked; eauto.
 Qed.
 
 (* checkStores: the fold keeps, for every id, "unchanged or buried while empty" *)
@@ -246,19 +230,32 @@ Proof.
   - rewrite E1, E4. apply bury_shape_change; auto.
 Qed.
 
+Lemma sv_restore_weights s s0 id k : sv (restore_weights s s0 id) k = sv s k.
+Proof. reflexivity. Qed.
+
 Lemma do_weight_change s id lw rw f s' r o : do_weight s id lw rw f = (s', r) -> forall j, change s o j (sv s j) (sv s' j).
 Proof.
   unfold do_weight. destruct (sv s id) as [x|] eqn:E; intros H j; [|inv H; constructor].
   destruct (wr f id 0) as [a0 ok0]. destruct ok0; cbn [negb] in H.
-  2:{ inv H. destruct a0; constructor. }
+  2:{ inv H. rewrite sv_restore_weights. destruct a0; constructor. }
   destruct (wr f id 1) as [a1 ok1]. destruct ok1; cbn [negb] in H.
-  2:{ inv H. destruct a0, a1; constructor. }
+  2:{ inv H. rewrite sv_restore_weights. destruct a0, a1; constructor. }
   match type of H with context [put_locked ?a ?b ?c ?d ?e] => destruct (put_locked a b c d e) as [s2 ok] eqn:Epl end.
-  inv H. rewrite (put_locked_sv _ _ _ _ _ _ _ Epl j).
   assert (Es : forall k, sv (if a1 then write_rw (if a0 then write_lw s id lw else s) id rw else if a0 then write_lw s id lw else s) k = sv s k)
     by (intros k; destruct a0, a1; reflexivity).
-  rewrite Es. zeq id j; [|rewrite andb_false_r; constructor].
-  rewrite E, andb_true_r. destruct ok; [|constructor]. apply ch_keep; reflexivity.
+  destruct ok; inv H.
+  - rewrite (put_locked_sv _ _ _ _ _ _ _ Epl j), Es. zeq id j; [|constructor]. rewrite E. apply ch_keep; reflexivity.
+  - change (sv (write_rw (write_lw s2 id (s_lw x)) id (s_rw x)) j) with (sv s2 j).
+    rewrite (put_locked_sv _ _ _ _ _ _ _ Epl j), Es. constructor.
+Qed.
+
+Lemma delete_store_sv s id f s1 ok k : delete_store s id f = (s1, ok) -> sv s1 k = sv s k.
+Proof.
+  unfold delete_store. destruct (wr f id 0) as [a0 [|]]; cbn [negb].
+  2:{ intros H; inv H. destruct a0; reflexivity. }
+  destruct (wr f id 1) as [a1 [|]]; cbn [negb].
+  2:{ intros H; inv H. destruct a0, a1; reflexivity. }
+  destruct (wr f id 2) as [a2 [|]]; cbn [negb]; intros H; inv H; destruct a0, a1, a2; reflexivity.
 Qed.
 
 Lemma clean_loop_change s order f s' r o :
@@ -269,13 +266,12 @@ Proof.
   destruct (sv s id) as [x|] eqn:E; [|eapply IH; eauto].
   destruct (is_tomb x && (s_rcf x <=? 0))%bool eqn:Eg; [|eapply IH; eauto].
   apply andb_true_iff in Eg as [Et _]. apply is_tomb_true in Et.
-  destruct (wr f id 0) as [applied ok]. destruct ok.
+  destruct (delete_store s id f) as [s1 ok] eqn:Ed. destruct ok.
   - specialize (IH _ H j). rewrite sv_del_served in IH.
-    assert (Es : forall k, sv (if applied then del_meta s id else s) k = sv s k) by (intros k; destruct applied; reflexivity).
-    rewrite Es in IH. zeq id j.
+    rewrite (delete_store_sv _ _ _ _ _ j Ed) in IH. zeq id j.
     + right. exists x. repeat split; auto. destruct IH as [IH|[y [Hy _]]]; [exact IH|discriminate].
     + exact IH.
-  - inv H. left. destruct applied; reflexivity.
+  - inv H. left. eapply delete_store_sv; eauto.
 Qed.
 
 Lemma do_clean_change s order f s' r : do_clean s order f = (s', r) -> forall j, change s (OClean order f) j (sv s j) (sv s' j).
@@ -291,13 +287,10 @@ Lemma do_heartbeat_change s id f s' r o : do_heartbeat s id f = (s', r) -> foral
 Proof.
   unfold do_heartbeat. destruct (sv s id) as [x|] eqn:E; intros H j; [|inv H; constructor].
   destruct (is_tomb x); [inv H; constructor|].
-  destruct (if s_hbp x then (false, true) else wr f id 0) as [applied ok].
-  match type of H with context [roll_add ?a ?b] => set (s2 := roll_add a b) in * end.
-  assert (Es : sv s2 j = if id =? j then Some (SStore (s_addr x) (s_state x) (s_pd x) (renumber (labels_of (s_cells x))) (length (s_cells x)) (s_ver x)
-                         (s_lw x) (s_rw x) (s_rcf x) (s_hbp x || ok) true) else sv s j).
-  { subst s2. rewrite sv_roll_add, sv_set_served. destruct applied; reflexivity. }
-  assert (E' : sv s' j = sv s2 j) by (destruct (existsb _ (rolling s2)); inv H; reflexivity).
-  rewrite E', Es. zeq id j; [|constructor]. rewrite E. apply ch_keep; reflexivity.
+  destruct (if s_hbp x then (false, true) else wr f id 0) as [applied ok]. inv H.
+  rewrite sv_set_served.
+  assert (Es : forall k, sv (if applied then write_meta s id (meta_of x) else s) k = sv s k) by (intros k; destruct applied; reflexivity).
+  rewrite Es. zeq id j; [|constructor]. rewrite E. apply ch_keep; reflexivity.
 Qed.
 
 (* region heartbeat: only the region-count statistic of existing stores changes *)
@@ -337,8 +330,7 @@ Qed.
 (* ---------- the characterisation: every command, every store id ---------- *)
 Theorem run_cmd_change s o s' r : run_cmd s o = (s', r) -> forall j, change s o j (sv s j) (sv s' j).
 Proof.
-  unfold run_cmd. destruct (crashed s); [intros H; inv H; constructor|].
-  destruct o as [g p f|id ls force f|id pd f|id f|id f|corder f|id lw rw f|order f|id f|rg stores]; cbn [run_cmd0]; intros H.
+  destruct o as [g p f|id ls force f|id pd f|id f|id f|corder f|id lw rw f|order f|id f|rg stores]; cbn [run_cmd]; intros H.
   - destruct g.
     + destruct (sv s (p_id p)) as [x|] eqn:E.
       * destruct (is_tomb x); [inv H; constructor|]. eapply do_put_change; eauto.
@@ -393,38 +385,36 @@ Qed.
 
 (* gRPC registration and heartbeat of a tombstone store are refused and change nothing *)
 Lemma tombstone_refused_pf s id x :
-  crashed s = false -> sv s id = Some x -> s_state x = Tombstone ->
+  sv s id = Some x -> s_state x = Tombstone ->
   (forall p f, p_id p = id -> run_cmd s (OPut true p f) = (s, RGrpcTombstone)) /\
   (forall f, run_cmd s (OHeartbeat id f) = (s, RGrpcTombstone)).
 Proof.
-  intros Hc E T. apply is_tomb_true in T. unfold run_cmd. rewrite Hc. split.
-  - intros p f <-. cbn [run_cmd0]. rewrite E, T. reflexivity.
-  - intros f. cbn [run_cmd0]. unfold do_heartbeat. rewrite E, T. reflexivity.
+  intros E T. apply is_tomb_true in T. split.
+  - intros p f <-. cbn [run_cmd]. rewrite E, T. reflexivity.
+  - intros f. cbn [run_cmd]. unfold do_heartbeat. rewrite E, T. reflexivity.
 Qed.
 
 (* a successful RemoveStore(id, physically destroyed) leaves the store offline with the flag set, and from
    then on UpStore is refused *)
 Lemma remove_destroyed_pf s id f s' :
-  crashed s = false -> run_cmd s (ORemove id true f) = (s', ROk) ->
+  run_cmd s (ORemove id true f) = (s', ROk) ->
   (exists y, sv s' id = Some y /\ s_state y = Offline /\ s_pd y = true) /\
   (forall f', run_cmd s' (OUp id f') = (s', RDestroyed)).
 Proof.
-  unfold run_cmd. intros Hc. rewrite Hc. cbn [run_cmd0]. unfold do_remove.
+  cbn [run_cmd]. unfold do_remove.
   destruct (sv s id) as [x|] eqn:E; [|discriminate].
   destruct (sstate_eqb (s_state x) Offline && Bool.eqb (s_pd x) true)%bool eqn:Eg.
   - intros H; inv H. apply andb_true_iff in Eg as [E1 E2]. apply sstate_eqb_eq in E1.
     assert (Ep : s_pd x = true) by (destruct (s_pd x); [reflexivity|discriminate]).
-    split; [eauto|]. intros f'. rewrite Hc. cbn [run_cmd0]. unfold do_up. rewrite E.
+    split; [eauto|]. intros f'. unfold do_up. rewrite E.
     assert (Et : is_tomb x = false) by (apply is_tomb_false; congruence). rewrite Et, Ep. reflexivity.
   - destruct (is_tomb x); [discriminate|]. destruct (s_pd x); [discriminate|].
     destruct (put_locked s id (with_state x Offline true) f 0) as [s1 ok] eqn:Epl.
     destruct ok; intros H; inv H.
     assert (Es : sv s' id = Some (with_state x Offline true))
       by (rewrite (put_locked_sv _ _ _ _ _ _ _ Epl), Z.eqb_refl; reflexivity).
-    assert (Ec : crashed s' = crashed s).
-    { unfold put_locked in Epl. destruct (wr f id 0) as [[|] [|]]; inv Epl; unfold roll_add; destruct (existsb _ _); reflexivity. }
     split; [eexists; split; [exact Es|split; reflexivity]|].
-    intros f'. rewrite Ec, Hc. cbn [run_cmd0]. unfold do_up. rewrite Es. reflexivity.
+    intros f'. unfold do_up. rewrite Es. reflexivity.
 Qed.
 
 (* ---------- statement 2: buried only while empty ---------- *)
